@@ -93,7 +93,7 @@ def search(ctx, hints):
     broken = bool(hints.get('broken'))
     n = 400000 if (ctx.thorough() or broken) else 40000
     cwd = ctx.scratch('c10search')
-    env = dict(VERIF_SEED=str(ctx.seed), GOMEMLIMIT='8GiB')
+    env = dict(VERIF_SEED=str(ctx.seed), GOMEMLIMIT='8GiB', VERIF_CORPUS=os.path.join(vlib.VERIF, 'corpus', 'C10'))
     rc, so, se = vlib.run([binp, 'mode=search', 'n=%d' % n, 'repo=' + ctx.repo, 'tier=' + ('thorough' if (ctx.thorough() or broken) else 'quick')],
                           cwd=cwd, env=env, timeout=1500)
     import shutil
